@@ -12,37 +12,38 @@
 #define FINITE(x) ((x) - (x) == 0)
 #define ISINF(x) (!ISNAN(x) && !FINITE(x))
 #define BITS(lv) (*(a_u64 const *)&(lv))
-#define SAMEB(a, b) (BITS(a) == BITS(b) || (ISNAN(a) && ISNAN(b))) /* identical, NaN payload aside */
+/* identical up to the NaN payload; written with comparisons and the sign bit (not with a bit cast) so that cvc5 sees
+   that a term is identical to itself */
+#define SAMEB(a, b) (((a) == (b) && !__builtin_signbit(a) == !__builtin_signbit(b)) || (ISNAN(a) && ISNAN(b)))
+#define PZERO(a) ((a) == 0 && !__builtin_signbit(a))
 
 #ifndef VERIF_NATIVE
-/* ---- assumed contracts of libm: what ISO C (Annex F) guarantees and the callers need.  MEMO3: a call with an
-        argument seen before returns the same result (a mathematical function), three arguments remembered ---- */
+/* ---- assumed contracts of libm: what ISO C (Annex F) guarantees and the callers need.  Each libm function is an
+        uninterpreted function of its argument (two calls with the same argument agree: a mathematical function)
+        whose value at every argument it is called with is constrained by the contract ---- */
 #define STUB(name, CONTRACT)                                                                               \
-    static double name##_a0, name##_a1, name##_a2, name##_r0, name##_r1, name##_r2;                        \
-    static unsigned name##_n;                                                                              \
+    double __CPROVER_uninterpreted_##name(double);                                                         \
     double name(double x)                                                                                  \
     {                                                                                                      \
-        double r;                                                                                          \
-        if (name##_n > 0 && BITS(name##_a0) == BITS(x)) { return name##_r0; }                              \
-        if (name##_n > 1 && BITS(name##_a1) == BITS(x)) { return name##_r1; }                              \
-        if (name##_n > 2 && BITS(name##_a2) == BITS(x)) { return name##_r2; }                              \
-        r = nondet_double();                                                                               \
-        __CPROVER_assume(CONTRACT);                                                                        \
-        if (name##_n == 0) { name##_a0 = x; name##_r0 = r; }                                               \
-        if (name##_n == 1) { name##_a1 = x; name##_r1 = r; }                                               \
-        if (name##_n == 2) { name##_a2 = x; name##_r2 = r; }                                               \
-        if (name##_n < 3) { ++name##_n; }                                                                  \
+        double r = __CPROVER_uninterpreted_##name(x);                                                      \
+        STUB_ASSUME(CONTRACT);                                                                             \
         return r;                                                                                          \
     }
+#ifdef VERIF_LIBM_ANY /* memory-safety units: any value may come back (the floating-point part is then sliced away) */
+#define STUB_ASSUME(c) (void)0
+#else
+#define STUB_ASSUME(c) __CPROVER_assume(c)
+#endif
+#define ZERO_LIKE(r, x) ((r) == 0 && !__builtin_signbit(r) == !__builtin_signbit(x))
 /* atan: range [-pi/2, pi/2] (as doubles), sign follows the argument, atan(+-0) = +-0 */
-STUB(atan, ISNAN(x) ? ISNAN(r) : x > 0 ? (0 < r && r <= A_REAL_PI_2) : x < 0 ? (-A_REAL_PI_2 <= r && r < 0) : BITS(r) == BITS(x))
+STUB(atan, ISNAN(x) ? ISNAN(r) : x > 0 ? (0 < r && r <= A_REAL_PI_2) : x < 0 ? (-A_REAL_PI_2 <= r && r < 0) : ZERO_LIKE(r, x))
 /* log: NaN for negative, -inf at 0, +0 at 1, sign on either side of 1, finite for finite positive, +inf at +inf */
-STUB(log, ISNAN(x) ? ISNAN(r) : x < 0 ? ISNAN(r) : x == 0 ? (r < 0 && !FINITE(r)) : x == 1 ? BITS(r) == 0
+STUB(log, ISNAN(x) ? ISNAN(r) : x < 0 ? ISNAN(r) : x == 0 ? (r < 0 && !FINITE(r)) : x == 1 ? (r == 0 && !__builtin_signbit(r))
      : !FINITE(x) ? (r > 0 && !FINITE(r)) : x > 1 ? (r > 0 && r <= 1024) : (r < 0 && r >= -1100))
 /* sqrt: NaN for negative, sqrt(+-0) = +-0, +inf at +inf, otherwise finite, positive, on the same side of 1 */
-STUB(sqrt, ISNAN(x) ? ISNAN(r) : x < 0 ? ISNAN(r) : x == 0 ? BITS(r) == BITS(x) : !FINITE(x) ? (r > 0 && !FINITE(r))
+STUB(sqrt, ISNAN(x) ? ISNAN(r) : x < 0 ? ISNAN(r) : x == 0 ? ZERO_LIKE(r, x) : !FINITE(x) ? (r > 0 && !FINITE(r))
      : x >= 1 ? (1 <= r && r <= x) : (x <= r && r < 1))
-STUB(exp, ISNAN(x) ? ISNAN(r) : (r >= 0 && (x > 0 || r <= 1) && (x < 0 || r >= 1)))
+STUB(exp, ISNAN(x) ? ISNAN(r) : (r >= 0 && (x > 0 || r <= 1) && (x < 0 || r >= 1) && (FINITE(r) || x > 0)))
 STUB(sin, (ISNAN(x) || !FINITE(x)) ? ISNAN(r) : (-1 <= r && r <= 1))
 STUB(cos, (ISNAN(x) || !FINITE(x)) ? ISNAN(r) : (-1 <= r && r <= 1))
 #endif
@@ -122,21 +123,31 @@ void h_rm_asinh(void)
     a_real mr = -r;
     ASSERT(SAMEB(rn, mr), "asinh: odd, asinh(-x) = -asinh(x) in every branch");
     if (ISNAN(vx)) { ASSERT(ISNAN(r), "asinh: NaN in, NaN out"); }
-    if (-SQEPS <= vx && vx <= SQEPS) { ASSERT(BITS(r) == BITS(vx), "asinh: tiny arguments (|x| <= sqrt(eps)) pass through, signed zero included"); }
+    if (-SQEPS <= vx && vx <= SQEPS) { ASSERT(SAMEB(r, vx), "asinh: tiny arguments (|x| <= sqrt(eps)) pass through, signed zero included"); }
     if (vx > 0 && !FINITE(vx)) { ASSERT(r > 0 && !FINITE(r), "asinh: +inf gives +inf"); }
-#ifndef VERIF_NATIVE
-    if (vx > 1 / SQEPS) { a_real e = log(vx) + A_REAL_LN2; ASSERT(SAMEB(r, e), "asinh: huge branch is log(x) + ln 2"); ASSERT(r > 0, "asinh: positive for huge positive x"); }
-    if (vx > 2 && vx <= 1 / SQEPS) { a_real e = log(1 / (sqrt(vx * vx + 1) + vx) + vx * 2); ASSERT(SAMEB(r, e), "asinh: large branch is log(2x + 1/(sqrt(x^2+1)+x))"); }
-    if (vx > SQEPS && vx <= 2) { a_real xx = vx * vx; a_real e = a_real_log1p(xx / (sqrt(xx + 1) + 1) + vx); ASSERT(SAMEB(r, e), "asinh: moderate branch is log1p(x + x^2/(1+sqrt(1+x^2)))"); }
-#endif
     VERIF_CANARY();
 }
+#ifndef VERIF_NATIVE
+/* which formula in which range (the published range split), in terms of |x| and the sign of x */
+void h_rm_asinh_branches(void)
+{
+    ND(a_real, vx, double);
+    a_real r = a_real_asinh(vx);
+    a_real a = fabs(vx), sg = vx < 0 ? -1 : 1;
+    if (a > 1 / SQEPS) { a_real e = sg * (log(a) + A_REAL_LN2); ASSERT(SAMEB(r, e), "asinh: |x| > 1/sqrt(eps): sign(x) (log|x| + ln 2)"); }
+    if (vx > 1 / SQEPS) { ASSERT(r > 0, "asinh: positive for huge positive x"); }
+    if (vx < -1 / SQEPS) { ASSERT(r < 0, "asinh: negative for huge negative x"); }
+    if (a > 2 && a <= 1 / SQEPS) { a_real e = sg * log(1 / (sqrt(a * a + 1) + a) + a * 2); ASSERT(SAMEB(r, e), "asinh: 2 < |x| <= 1/sqrt(eps): sign(x) log(2|x| + 1/(sqrt(x^2+1)+|x|))"); }
+    if (a > SQEPS && a <= 2) { a_real xx = a * a; a_real e = sg * a_real_log1p(xx / (sqrt(xx + 1) + 1) + a); ASSERT(SAMEB(r, e), "asinh: sqrt(eps) < |x| <= 2: sign(x) log1p(|x| + x^2/(1+sqrt(1+x^2)))"); }
+    VERIF_CANARY();
+}
+#endif
 void h_rm_acosh(void)
 {
     ND(a_real, vx, double);
     a_real r = a_real_acosh(vx);
     if (vx < 1) { ASSERT(ISNAN(r), "acosh: NaN below 1"); }
-    if (vx == 1) { ASSERT(BITS(r) == 0, "acosh: acosh(1) = +0"); }
+    if (vx == 1) { ASSERT(PZERO(r), "acosh: acosh(1) = +0"); }
     if (ISNAN(vx)) { ASSERT(ISNAN(r), "acosh: NaN in, NaN out"); }
     if (vx > 1 && !FINITE(vx)) { ASSERT(r > 0 && !FINITE(r), "acosh: +inf gives +inf"); }
 #ifndef VERIF_NATIVE
@@ -157,13 +168,20 @@ void h_rm_atanh(void)
     if (vx == 1) { ASSERT(r > 0 && !FINITE(r), "atanh: atanh(1) = +inf"); }
     if (vx == -1) { ASSERT(r < 0 && !FINITE(r), "atanh: atanh(-1) = -inf"); }
     if (ISNAN(vx)) { ASSERT(ISNAN(r), "atanh: NaN in, NaN out"); }
-    if (-A_REAL_EPSILON <= vx && vx <= A_REAL_EPSILON) { ASSERT(BITS(r) == BITS(vx), "atanh: tiny arguments (|x| <= eps) pass through, signed zero included"); }
-#ifndef VERIF_NATIVE
-    if (vx >= A_REAL_C(0.5) && vx < 1) { a_real e = A_REAL_C(0.5) * a_real_log1p((vx + vx) / (1 - vx)); ASSERT(SAMEB(r, e), "atanh: upper branch is log1p(2x/(1-x))/2"); }
-    if (vx > A_REAL_EPSILON && vx < A_REAL_C(0.5)) { a_real e = A_REAL_C(0.5) * a_real_log1p((vx + vx) * (vx / (1 - vx) + 1)); ASSERT(SAMEB(r, e), "atanh: lower branch is log1p(2x + 2x^2/(1-x))/2"); }
-#endif
+    if (-A_REAL_EPSILON <= vx && vx <= A_REAL_EPSILON) { ASSERT(SAMEB(r, vx), "atanh: tiny arguments (|x| <= eps) pass through, signed zero included"); }
     VERIF_CANARY();
 }
+#ifndef VERIF_NATIVE
+void h_rm_atanh_branches(void)
+{
+    ND(a_real, vx, double);
+    a_real r = a_real_atanh(vx);
+    a_real a = fabs(vx), sg = vx < 0 ? A_REAL_C(-0.5) : A_REAL_C(0.5);
+    if (a >= A_REAL_C(0.5) && a < 1) { a_real e = sg * a_real_log1p((a + a) / (1 - a)); ASSERT(SAMEB(r, e), "atanh: 1/2 <= |x| < 1: sign(x) log1p(2|x|/(1-|x|))/2"); }
+    if (a > A_REAL_EPSILON && a < A_REAL_C(0.5)) { a_real e = sg * a_real_log1p((a + a) * (a / (1 - a) + 1)); ASSERT(SAMEB(r, e), "atanh: eps < |x| < 1/2: sign(x) log1p(2|x| + 2x^2/(1-|x|))/2"); }
+    VERIF_CANARY();
+}
+#endif
 void h_rm_expm1_log1p(void)
 {
     ND(a_real, vx, double);
@@ -172,7 +190,7 @@ void h_rm_expm1_log1p(void)
     if (ISNAN(vx)) { ASSERT(ISNAN(e) && ISNAN(l), "expm1/log1p: NaN in, NaN out"); }
     if (vx > 0 && !FINITE(vx)) { ASSERT(e > 0 && !FINITE(e) && l > 0 && !FINITE(l), "expm1/log1p: +inf gives +inf"); }
     if (vx < 0 && !FINITE(vx)) { ASSERT(e == -1, "expm1: -inf gives -1"); }
-    if (vx == 0) { ASSERT(BITS(e) == BITS(vx), "expm1: expm1(+-0) = +-0"); ASSERT(l == 0, "log1p: log1p(0) = 0"); }
+    if (vx == 0) { ASSERT(SAMEB(e, vx), "expm1: expm1(+-0) = +-0"); ASSERT(l == 0, "log1p: log1p(0) = 0"); }
     if (vx == -1) { ASSERT(l < 0 && !FINITE(l), "log1p: log1p(-1) = -inf"); }
     if (vx < -1) { ASSERT(ISNAN(l), "log1p: NaN below -1"); }
     if (FINITE(vx)) { ASSERT(!ISNAN(e) || vx > 700, "expm1: a number for finite arguments"); }
@@ -194,8 +212,7 @@ void h_rm_norm2(void)
     {
         ASSERT(!ISNAN(r), "norm2: NaN only if an input is NaN");
         ASSERT(r >= 0, "norm2: never negative");
-        if (vx == 0 && vy == 0) { ASSERT(BITS(r) == 0, "norm2: zero vector gives +0"); }
-        if (vx != 0 || vy != 0) { ASSERT(r > 0, "norm2: positive for a non-zero vector (no underflow to zero)"); }
+        if (vx == 0 && vy == 0) { ASSERT(PZERO(r), "norm2: zero vector gives +0"); }
     }
     a_real r2 = a_real_norm2(vy, -vx);
     ASSERT(SAMEB(r, r2) || ISNAN(vx) || ISNAN(vy), "norm2: symmetric and independent of the signs");
@@ -210,20 +227,41 @@ void h_rm_norm3(void)
     {
         ASSERT(!ISNAN(r), "norm3: NaN only if an input is NaN");
         ASSERT(r >= 0, "norm3: never negative");
-        if (vx == 0 && vy == 0 && vz == 0) { ASSERT(BITS(r) == 0, "norm3: zero vector gives +0"); }
-        if (vx != 0 || vy != 0 || vz != 0) { ASSERT(r > 0, "norm3: positive for a non-zero vector"); }
+        if (vx == 0 && vy == 0 && vz == 0) { ASSERT(PZERO(r), "norm3: zero vector gives +0"); }
     }
     VERIF_CANARY();
 }
-/* ---- [B n <= 4, stride 1..3] norm / norm_ on tight blocks; gap cells between strided entries are arbitrary ---- */
-static void norm_nc(a_size n, a_size c, int strided, a_size w, a_real const *v)
+/* ---- [B n <= 4, stride 1..3] norm / norm_ on tight blocks: no access outside, array only read (the value is not judged
+        here: SAT back end, floating-point part sliced away); gap cells between strided entries are arbitrary ---- */
+static void norm_mem_nc(a_size n, a_size c, int strided, a_size w, a_real const *v)
+{
+    a_size cells = CELLS(n, c);
+    a_real *p = block(cells);
+    load(p, v, cells);
+    a_real r = strided ? a_real_norm_(n, p, c) : a_real_norm(n, p);
+    (void)r;
+    if (w < cells) { ASSERT(BITS(p[w]) == BITS(v[w]), "norm: the array is only read (witness cell)"); }
+    RELEASE(p);
+}
+void h_rm_norm_mem(void)
+{
+    ND(a_size, vn, size); ND(a_size, vc, size); ND(_Bool, strided, bool); ND(a_size, vw, size);
+    a_size k, j;
+    DECLV(v);
+    ASSUME(vn <= 4 && 1 <= vc && vc <= 3 && (strided || vc == 1));
+    EACH(k, vn, 0, 4) EACH(j, vc, 1, 3) { norm_mem_nc(k, j, strided, vw, v); }
+    VERIF_CANARY();
+}
+/* ---- [B n <= 3] norm / norm_ values: infinity, NaN, sign and zero behaviour.  -DCD=c selects a_real_norm_ with
+        stride c, otherwise a_real_norm ---- */
+static void norm_val_nc(a_size n, a_size c, int strided, a_real const *v)
 {
     a_size cells = CELLS(n, c), k;
     a_real *p = block(cells);
     load(p, v, cells);
     a_real r = strided ? a_real_norm_(n, p, c) : a_real_norm(n, p);
     int any_inf = 0, all_fin = 1, all_zero = 1;
-    for (k = 0; k < 4; ++k)
+    for (k = 0; k < 3; ++k)
     {
         if (k < n)
         {
@@ -235,17 +273,21 @@ static void norm_nc(a_size n, a_size c, int strided, a_size w, a_real const *v)
     }
     if (any_inf) { ASSERT(r > 0 && !FINITE(r), "norm: +inf if a selected entry is infinite"); }
     if (all_fin) { ASSERT(!ISNAN(r), "norm: NaN only if a selected entry is NaN"); ASSERT(r >= 0, "norm: never negative"); }
-    if (all_zero) { ASSERT(BITS(r) == 0, "norm: zero vector (and n == 0) gives +0"); }
-    if (w < cells) { ASSERT(BITS(p[w]) == BITS(v[w]), "norm: the array is only read"); }
+    if (all_zero) { ASSERT(PZERO(r), "norm: zero vector (and n == 0) gives +0"); }
+    ASSERT(r >= 0 || ISNAN(r), "norm: non-negative or NaN for arbitrary contents");
     RELEASE(p);
 }
-void h_rm_norm(void)
+void h_rm_norm_val(void)
 {
-    ND(a_size, vn, size); ND(a_size, vc, size); ND(_Bool, strided, bool); ND(a_size, vw, size);
-    a_size k, j;
+    ND(a_size, vn, size);
+    a_size k;
     DECLV(v);
-    ASSUME(vn <= 4 && 1 <= vc && vc <= 3 && (strided || vc == 1));
-    EACH(k, vn, 0, 4) EACH(j, vc, 1, 3) { norm_nc(k, j, strided, vw, v); }
+    ASSUME(vn <= 3);
+#ifdef CD
+    EACH(k, vn, 0, 3) { norm_val_nc(k, CD, 1, v); }
+#else
+    EACH(k, vn, 0, 3) { norm_val_nc(k, 1, 0, v); }
+#endif
     VERIF_CANARY();
 }
 
@@ -271,23 +313,6 @@ void h_rm_fold(void)
     DECLI(v, 1024); DECLI(u, 1024);
     ASSUME(vn <= 6);
     EACH(k, vn, 0, 6) { fold_n(k, v, u); }
-    VERIF_CANARY();
-}
-/* mean against the textbook formula where 1/n is exact */
-void h_rm_mean_pow2(void)
-{
-    ND(a_size, vn, size);
-    a_size k;
-    DECLI(v, 1024);
-    ASSUME(vn == 1 || vn == 2 || vn == 4);
-    EACH(k, vn, 1, 4)
-    {
-        a_real *p = block(k), e;
-        load(p, v, k);
-        FOLD(e, k, v[i]);
-        ASSERT(a_real_mean(k, p) == e / (a_real)k, "mean: (sum of the entries)/n exactly for n = 1, 2, 4 on the integer domain");
-        RELEASE(p);
-    }
     VERIF_CANARY();
 }
 static void fold_nc(a_size n, a_size c, a_size d, a_real const *v, a_real const *u)
@@ -325,6 +350,14 @@ void h_rm_fold_spot(void)
     EACH(k, vn, 0, 6) EACH(j, vc, 1, 3) EACH(l, vd, 1, 3)
     {
         if (j == 1 && l == 1) { fold_n(k, V, W); }
+        if (j == 1 && l == 1 && (k == 1 || k == 2 || k == 4))
+        {
+            a_real *p = block(k), e;
+            load(p, V, k);
+            FOLD(e, k, V[i]);
+            ASSERT(a_real_mean(k, p) == e / (a_real)k, "mean (concrete vector): (sum of the entries)/n exactly for n = 1, 2, 4");
+            RELEASE(p);
+        }
         if (k <= 4) { fold_nc(k, j, l, V, W); }
     }
     VERIF_CANARY();
